@@ -224,6 +224,6 @@ def run(tier, seed, which=("ind", "pop")):
     return dict(evaluations=evals, distinct_nontrivial=len(distinct),
                 rule="one evaluation = one sampler decision (block or cohort step) of a real sampler on a real model state, "
                      "replayed from its recorded draws against from-scratch evaluations; distinct = (model kind, variable, sweep)",
-                samples=samples, violations=violations[:5],
+                samples=samples, violations=violations[:60],
                 bound=dict(space="seeded sampler sweeps on the shipped model kinds", model_kinds=len(MODEL_KINDS),
                            sweeps=sweeps, exhaustive=False, seed=seed))
